@@ -76,12 +76,12 @@ func RunC16(s *kernel.Sim) *World {
 				case 1:
 					o.Kind = OutHang
 				case 2:
-					o.Latency = time.Duration(t.Range(1, 400)) * time.Second
+					o.Latency = time.Duration(t.Range(1, 400))*time.Second + 137*time.Millisecond
 				}
 			case 2:
 				o.Kind = OutHang
 			case 3:
-				o.Latency = time.Duration(t.Range(1, 290)) * time.Second
+				o.Latency = time.Duration(t.Range(1, 290))*time.Second + 137*time.Millisecond
 			}
 			sc = append(sc, o)
 		}
